@@ -1209,7 +1209,9 @@ func (g *Gen) oneItem() {
 	n := g.r.Intn(20)
 	if g.o.NestedGeneric && !g.familyDone && g.r.Chance(1, 6) {
 		g.familyDone = true
-		switch g.r.Intn(4) {
+		switch g.r.Intn(5) {
+		case 4:
+			g.itemGenericFromFieldAccess()
 		case 0:
 			g.itemGenericFamily()
 		case 1:
@@ -1979,5 +1981,45 @@ func (g *Gen) itemGenericSteps() {
 		g.use(stepItem)
 		g.use(optItem)
 		g.push("let", name, "let "+name+" () =\n  "+doneOpt+" "+lit+"\n\n")
+	}
+}
+
+// itemGenericFromFieldAccess is a schema: local functions with unannotated parameters build instances of a
+// generic record from field accesses whose type is not yet known when the instance is created (Box<p.Name>,
+// Box<p.Age>), next to an unrelated consumer of one concrete instance. Instances that are still unresolved must
+// not be confused with each other, nor with the concrete one.
+func (g *Gen) itemGenericFromFieldAccess() {
+	k := g.fresh("A")
+	person, box := "Person"+k, "Box"+k
+	personItem := len(g.items)
+	g.declSets["Age"+k+",Name"+k] = true
+	g.push("type", person, "type "+person+" = {Name"+k+": string; Age"+k+": int}\n\n")
+	boxItem := len(g.items)
+	g.declSets["V"+k] = true
+	g.push("type", box, "type "+box+"<T> = {V"+k+": T}\n\n")
+	base := g.r.Pick("string", "int")
+	{
+		name := g.fresh("unbox")
+		g.use(boxItem)
+		g.push("let", name, "let "+name+" (b:"+box+"<"+base+">) =\n  b.V"+k+"\n\n")
+	}
+	{
+		name := g.fresh("boxAll")
+		g.use(boxItem)
+		g.use(personItem)
+		g.useSets["V"+k] = true
+		g.push("let", name, "let "+name+" (ps:[]"+person+") =\n  let nameBox p = {V"+k+"=p.Name"+k+"}\n  let ageBox p = {V"+k+"=p.Age"+k+"}\n  (slice.Map nameBox ps, slice.Map ageBox ps)\n\n")
+	}
+	if g.r.Chance(1, 2) {
+		name := g.fresh("mkBox")
+		g.use(boxItem)
+		g.useSets["V"+k] = true
+		lit := map[string]string{"string": "\"s\"", "int": "1"}[base]
+		item := len(g.items)
+		g.push("let", name, "let "+name+" () =\n  {V"+k+"="+lit+"}\n\n")
+		first := g.fresh("firstOf")
+		g.use(item)
+		g.use(boxItem)
+		g.push("let", first, "let "+first+" () =\n  let b = "+name+" ()\n  b.V"+k+"\n\n")
 	}
 }
